@@ -53,14 +53,16 @@
    list for list with update() of StlDenseTimeOnlineSpecification on every
    chunking of every case by harness/c05.py):
    - C05_monitor / C05_monitor_chunking: see below.
-   Outside the proved fragment (modelled and compared only): sqrt and ln, a
-   constant under a temporal operator or as a since operand, two constant
-   operands, the IA-STL predicate kinds, signals that start after 0 (the open
-   known finding), +inf stamps inside the per-operation theorems. *)
+   - C05_monitor_general / C05_monitor_closed (DenseOnlineMonMore.v): the IA-STL
+     predicate kinds, constants at almost every position, sqrt / ln under a
+     no-raise hypothesis, progress for since-free formulas.
+   Outside the proved fragment (modelled and compared only): a constant
+   sub-formula that is not a literal under a bounded operator, since[a,b] with
+   two constant operands, signals that start after 0 (the open known finding). *)
 From Coq Require Import List ZArith Lia.
 From RV Require Import Val Syntax Rho Dense DenseSem DenseLaws ExtZ DenseMerge DenseMergeCorrect DenseOnlineMerge DenseOnlineMergeCorrect
   DenseSinceCorrect DenseOnlineFold DenseOnlineFoldCorrect DenseOnlineWin DenseOnlineWinCorrect.
-From RV Require DenseOnlineMon DenseOnlineMonCorrect.
+From RV Require DenseOnlineMon DenseOnlineMonCorrect DenseOnlineMonMore DenseIA.
 Import ListNotations.
 Local Open Scope Z_scope.
 
@@ -268,6 +270,49 @@ Theorem C05_monitor_chunking :
            den_opt (concat outs) t = den_opt (concat outs') t).
 Proof. exact @DenseOnlineMonCorrect.mon_online_chunking. Qed.
 Print Assumptions C05_monitor_chunking.
+
+(* the larger fragment (DenseOnlineMonMore.v): every predicate kind of the IA-STL semantics (under the sign laws of the difference, DiffLaws), constants at
+   every operand position of the untimed operators and as the operand of a bounded operator (cl p = COpen: the formula has a variable and no unsupported
+   node), sqrt and ln under the hypothesis `safe` (no value they receive inside the horizon makes them raise); and progress: for since-free formulas
+   whose bounded operators have a positive upper bound (pg) the outputs reach the last stamp of one of the variables *)
+Theorem C05_monitor_general :
+  forall (VS : Val) (AR : Arith VS) (pk : formula -> formula -> pkind),
+    (forall f g, pk f g = PStd) \/ DenseIA.DiffLaws AR -> (forall l r : V, neg (a2 AR Sub l r) = a2 AR Sub r l) ->
+    forall (p : formula) (W : list dsig) (tend : Z) (envs : list (list dsig)),
+      DenseOnlineMonMore.cl p = DenseOnlineMonMore.COpen ->
+      (forall x, DenseOnlineMonCorrect.feedsI [] (map (fun env => nth x env []) envs) (nth x W [])) ->
+      (forall x, dsorted (nth x W [])) ->
+      (forall x, nth x W [] <> [] -> start (nth x W []) = 0) ->
+      DenseOnlineMonMore.safe AR pk W tend p ->
+      exists d outs S,
+        DenseOnlineMon.mon_run AR pk p (DenseOnlineMon.mon_init p) envs = Some (d, map DenseOnlineMon.lift outs) /\
+        DenseOnlineMon.mon_run_fin AR pk p (DenseOnlineMon.mon_init p) envs = Some (d, outs) /\
+        length outs = length envs /\
+        DenseOnlineMonCorrect.feedsI [] outs S /\ dsorted S /\
+        wsorted (concat outs) /\
+        (forall a v, In (a, v) (concat outs) -> 0 <= a <= lastT (concat outs)) /\
+        (forall t, concat outs <> [] -> 0 <= t <= lastT (concat outs) -> den_opt (concat outs) t = Some (rhoZ AR pk W tend p t)) /\
+        (forall x, In x (DenseOnlineMonCorrect.fvars p) -> lastT (concat outs) <= lastT (nth x W [])) /\
+        (DenseOnlineMonMore.pg p = true -> exists x, In x (DenseOnlineMonCorrect.fvars p) /\ lastT (concat outs) = lastT (nth x W [])).
+Proof. exact @DenseOnlineMonMore.mon_online_correct_pk. Qed.
+Print Assumptions C05_monitor_general.
+
+(* a formula without variables (constants only): the monitor returns the constant signal, on stamps with +inf *)
+Theorem C05_monitor_closed :
+  forall (VS : Val) (AR : Arith VS) (pk : formula -> formula -> pkind),
+    (forall f g, pk f g = PStd) \/ DenseIA.DiffLaws AR -> (forall l r : V, neg (a2 AR Sub l r) = a2 AR Sub r l) ->
+    forall (p : formula) (W : list dsig) (tend : Z) (envs : list (list dsig)),
+      DenseOnlineMonMore.cl p = DenseOnlineMonMore.CClosed ->
+      (forall x, DenseOnlineMonCorrect.feedsI [] (map (fun env => nth x env []) envs) (nth x W [])) ->
+      (forall x, dsorted (nth x W [])) ->
+      (forall x, nth x W [] <> [] -> start (nth x W []) = 0) ->
+      DenseOnlineMonMore.safe AR pk W tend p ->
+      exists d ys,
+        DenseOnlineMon.mon_run AR pk p (DenseOnlineMon.mon_init p) envs = Some (d, ys) /\ length ys = length envs /\
+        (forall t, 0 <= t -> (exists a v, In (a, v) (concat ys) /\ DenseOnlineMon.tle (T t) a = true) ->
+           DenseOnlineMonMore.eden_opt (concat ys) t = Some (rhoZ AR pk W tend p t)).
+Proof. exact @DenseOnlineMonMore.mon_online_closed. Qed.
+Print Assumptions C05_monitor_closed.
 
 (* the hypotheses on the instance hold for the executable one, and a formula with a shared sub-formula is in the fragment *)
 Example C05_monitor_nonvacuous :
